@@ -172,7 +172,11 @@ Proof.
   destruct b as [|b0 [|b1 [|b2 [|b3 [|b4 tl]]]]]; try discriminate.
   destruct ((b0 =? 47) && ((b1 + 256 * b2 + 65536 * b3 + 16777216 * b4) / 536870912 =? 0)) eqn:E; [|discriminate].
   apply andb_true_iff in E. destruct E as [E1 E2]. apply Z.eqb_eq in E1. subst b0.
-  injection Hh as <- <- <-.
+  assert (Hw : w = (b1 + 256 * b2 + 65536 * b3 + 16777216 * b4) mod 16384 + 1 /\
+               h = (b1 + 256 * b2 + 65536 * b3 + 16777216 * b4) / 16384 mod 16384 + 1 /\
+               a = negb ((b1 + 256 * b2 + 65536 * b3 + 16777216 * b4) / 268435456 mod 2 =? 0))
+    by (repeat split; congruence).
+  destruct Hw as (-> & -> & ->). clear Hh.
   assert (Hp : parse_vp8l_dims (47 :: b1 :: b2 :: b3 :: b4 :: tl) =
                Ok ((b1 + 256 * b2 + 65536 * b3 + 16777216 * b4) mod 16384 + 1,
                    (b1 + 256 * b2 + 65536 * b3 + 16777216 * b4) / 16384 mod 16384 + 1,
@@ -202,7 +206,8 @@ Proof.
   intros Hb Hh. unfold vp8_header in Hh.
   destruct b as [|t0 [|t1 [|t2 [|b3 [|b4 [|b5 [|b6 [|b7 [|b8 [|b9 tl]]]]]]]]]]; try discriminate.
   match type of Hh with (if ?c then _ else _) = _ => destruct c eqn:E; [|discriminate] end.
-  injection Hh as <- <-.
+  assert (Hw : w = (b6 + 256 * b7) mod 16384 /\ h = (b8 + 256 * b9) mod 16384) by (split; congruence).
+  destruct Hw as (-> & ->). clear Hh.
   rewrite !andb_true_iff in E. destruct E as (((((E & E3) & E4) & E5) & Ew) & Eh).
   apply Z.eqb_eq in E3, E4, E5. subst b3 b4 b5.
   assert (Hp : parse_vp8_dims (t0 :: t1 :: t2 :: 157 :: 1 :: 42 :: b6 :: b7 :: b8 :: b9 :: tl) =
@@ -308,4 +313,1005 @@ Proof.
     + exact I.
     + cbn [olen]. lia.
     + intros H. contradiction.
+Qed.
+
+(** ---- the bytes written for one picture and what the demuxer makes of them ---- *)
+
+Definition img_chunks (a : option (list Z)) (b : list Z) : list Z :=
+  (match a with Some x => enc FCC_ALPH x | None => [] end) ++ enc (detect_type b) b.
+
+Definition anmf_flag (fo : fopts) : Z :=
+  (if o_dispose fo =? 1 then 1 else 0) + (if o_blend fo =? 1 then 2 else 0).
+
+Definition anmf_hdr (fo : fopts) (w h : Z) : list Z :=
+  le24 (Z.quot (o_ox fo) 2) ++ le24 (Z.quot (o_oy fo) 2) ++ le24 (w - 1) ++ le24 (h - 1) ++
+  le24 (o_dur fo) ++ [anmf_flag fo].
+
+Lemma len_img_chunks a b : olen a + len b < 1073741824 -> obytes_ok a ->
+  len (img_chunks a b) = sub_chunks_size a b /\ len (img_chunks a b) mod 2 = 0 /\
+  16 <= 16 + len (img_chunks a b) < 1073741824 + 64.
+Proof.
+  intros Hl _. pose proof (len_nonneg b). assert (0 <= olen a) by (destruct a; cbn; [apply len_nonneg|lia]).
+  unfold img_chunks, enc.
+  rewrite (sub_chunks_size_correct a b) by lia.
+  rewrite <- (sub_chunks_size_correct a b) by lia.
+  rewrite len_app. pose proof (write_data_chunk_even (detect_type b) b ltac:(lia)).
+  rewrite (chunk_total_correct (detect_type b) b) in * by lia.
+  assert (Hct : forall p, 0 <= p < 1073741824 -> chunk_total (u32 p) = 8 + p + p mod 2).
+  { intros p Hp. unfold chunk_total, u32, ChunkHeaderSize. rewrite (Z.mod_small p 4294967296) by lia.
+    destruct (Z.eqb_spec (p mod 2) 0); cbn [negb]; lia. }
+  rewrite Hct in * by lia.
+  destruct a as [x|]; cbn [olen] in *.
+  - pose proof (len_nonneg x). rewrite (chunk_total_correct FCC_ALPH x) by lia. rewrite Hct by lia.
+    repeat split; lia.
+  - change (len (@nil Z)) with 0. repeat split; lia.
+Qed.
+
+Lemma write_anmf_eq data fo a b w h :
+  split_alpha data = (a, b) -> frame_dims data = (w, h) -> 1 <= w -> 1 <= h ->
+  olen a + len b < 1073741824 -> obytes_ok a ->
+  write_anmf (mkmf data fo) = enc FCC_ANMF (anmf_hdr fo w h ++ img_chunks a b).
+Proof.
+  intros Hs Hd Hw Hh Hl Ha. unfold write_anmf. cbn [f_data f_opts]. rewrite Hs, Hd.
+  destruct (len_img_chunks a b Hl Ha) as (Hlen & Hev & Hrange).
+  replace ((w >? 0) && (h >? 0)) with true by lia.
+  unfold enc at 1. unfold write_data_chunk.
+  assert (Hhl : len (anmf_hdr fo w h) = 16) by reflexivity.
+  rewrite len_app, Hhl. unfold ANMFChunkSize. rewrite <- Hlen.
+  unfold u32. rewrite !(Z.mod_small (16 + len (img_chunks a b)) 4294967296) by lia.
+  replace (negb ((16 + len (img_chunks a b)) mod 2 =? 0)) with false by lia.
+  unfold anmf_hdr, anmf_flag, img_chunks, enc, write_data_chunk, u32. rewrite <- !app_assoc. reflexivity.
+Qed.
+
+Lemma le24_rd v : 0 <= v < 16777216 ->
+  v mod 256 + 256 * ((v / 256) mod 256) + 65536 * ((v / 65536) mod 256) = v.
+Proof. intros. lia. Qed.
+
+Lemma detect_type_range b : 0 <= detect_type b < 4294967296 /\ is_image_id (detect_type b) = true /\
+  (detect_type b =? FCC_ALPH) = false.
+Proof. unfold detect_type. destruct b as [|b0 tl]; [|destruct (b0 =? VP8LMagicByte)]; vm_compute; repeat split; congruence. Qed.
+
+(** the sub-chunk loop of parseANMF on the chunks written for one picture *)
+Lemma anmf_loop_img a b : olen a + len b < 1073741824 -> obytes_ok a ->
+  anmf_loop (S (length (img_chunks a b))) (img_chunks a b) None None = Ok (Some b, a).
+Proof.
+  intros Hl Ha. pose proof (len_nonneg b). assert (0 <= olen a) by (destruct a; cbn; [apply len_nonneg|lia]).
+  destruct (detect_type_range b) as (Hr & Himg & Hna).
+  apply (anmf_loop_more_fuel 3).
+  - unfold img_chunks. destruct a as [x|]; cbn [olen] in *.
+    + pose proof (len_nonneg x).
+      rewrite anmf_loop_step by (unfold FCC_ALPH; lia).
+      change (is_image_id FCC_ALPH) with false. change (FCC_ALPH =? FCC_ALPH) with true. cbv iota.
+      rewrite <- (app_nil_r (enc (detect_type b) b)).
+      rewrite anmf_loop_step by lia. rewrite Himg, Hna. reflexivity.
+    + cbn [app]. rewrite <- (app_nil_r (enc (detect_type b) b)).
+      rewrite anmf_loop_step by lia. rewrite Himg, Hna. reflexivity.
+  - destruct (len_img_chunks a b Hl Ha) as (_ & _ & _).
+    assert (8 <= len (img_chunks a b)).
+    { unfold img_chunks. rewrite len_app. pose proof (enc_len_ge (detect_type b) b ltac:(lia)).
+      pose proof (len_nonneg (match a with Some x => enc FCC_ALPH x | None => [] end)). lia. }
+    unfold len in *. lia.
+Qed.
+
+Definition has_a (a : option (list Z)) (isl abit : bool) : bool := (0 <? olen a) || (isl && abit).
+
+Definition fi_of (fo : fopts) (a : option (list Z)) (b : list Z) (w h : Z) (key hasA : bool) : frame_info :=
+  mkfi (Some b) a w h (2 * (o_ox fo / 2)) (2 * (o_oy fo / 2)) (o_dur fo) key hasA
+       (if o_blend fo =? 1 then 1 else 0) (if o_dispose fo =? 1 then 1 else 0).
+
+(** parseANMF on the ANMF payload written for a frame *)
+Lemma parse_anmf_written d fo a b w h isl abit :
+  bfacts b w h isl abit -> olen a + len b < 1073741824 -> obytes_ok a ->
+  0 <= o_ox fo < 33554432 -> 0 <= o_oy fo < 33554432 -> 0 <= o_dur fo <= maxDuration ->
+  len (d_frames d) < maxFrames ->
+  parse_anmf d (anmf_hdr fo w h ++ img_chunks a b) =
+    Ok (DemuxModel.set_frames d (d_frames d ++ [fi_of fo a b w h (len (d_frames d) =? 0) (has_a a isl abit)])).
+Proof.
+  intros Hbf Hl Ha Hox Hoy Hdur Hn.
+  pose proof (bf_w _ _ _ _ _ Hbf) as Hw. pose proof (bf_h _ _ _ _ _ Hbf) as Hh.
+  unfold parse_anmf, ANMFChunkSize. rewrite len_app. change (len (anmf_hdr fo w h)) with 16.
+  pose proof (len_nonneg (img_chunks a b)).
+  destruct (Z.ltb_spec (16 + len (img_chunks a b)) 16); [lia|].
+  unfold anmf_hdr, le24. cbn [app].
+  rewrite (Z.quot_div_nonneg (o_ox fo) 2) by lia. rewrite (Z.quot_div_nonneg (o_oy fo) 2) by lia.
+  rewrite !le24_rd by (unfold maxDuration in *; lia).
+  replace ((o_ox fo / 2 * 2 <? 0) || (o_oy fo / 2 * 2 <? 0)) with false by lia.
+  assert (Harea : (w - 1 + 1) * (h - 1 + 1) < MaxImageArea).
+  { unfold MaxImageArea. replace (w - 1 + 1) with w by lia. replace (h - 1 + 1) with h by lia.
+    assert (w * h <= 16384 * 16384) by (apply Z.mul_le_mono_nonneg; lia). lia. }
+  destruct (Z.geb_spec ((w - 1 + 1) * (h - 1 + 1)) MaxImageArea); [lia|].
+  rewrite anmf_loop_img by assumption. cbn [bind].
+  assert (HhA : (if 0 <? olen a then Ok true
+                 else if 0 <? len b then frame_data_has_alpha b else Ok false) = Ok (has_a a isl abit)).
+  { unfold has_a. destruct (0 <? olen a); [reflexivity|]. cbn [orb].
+    pose proof (bf_len _ _ _ _ _ Hbf). replace (0 <? len b) with true by lia.
+    apply (bf_fha _ _ _ _ _ Hbf). }
+  rewrite HhA. cbn [bind].
+  destruct (Z.geb_spec (len (d_frames d)) maxFrames); [lia|].
+  unfold fi_of, anmf_flag.
+  replace (o_ox fo / 2 * 2) with (2 * (o_ox fo / 2)) by lia.
+  replace (o_oy fo / 2 * 2) with (2 * (o_oy fo / 2)) by lia.
+  replace (w - 1 + 1) with w by lia. replace (h - 1 + 1) with h by lia.
+  destruct (o_dispose fo =? 1), (o_blend fo =? 1); reflexivity.
+Qed.
+
+(** ---- a run of ANMF chunks ---- *)
+
+Record aframe_ok (f : mframe) : Prop := {
+  af_bytes : bytes_ok (f_data f);
+  af_len : len (f_data f) < 1073741824;
+  af_valid : valid_frame (f_data f) = true;
+  af_ox : 0 <= o_ox (f_opts f) < 33554432;
+  af_oy : 0 <= o_oy (f_opts f) < 33554432;
+  af_dur : 0 <= o_dur (f_opts f) <= maxDuration }.
+
+Definition same_meta (d d' : dstate) : Prop :=
+  d_feat d' = d_feat d /\ d_icc d' = d_icc d /\ d_exif d' = d_exif d /\ d_xmp d' = d_xmp d /\
+  d_bg d' = d_bg d /\ d_loop d' = d_loop d.
+
+Lemma same_meta_refl d : same_meta d d. Proof. repeat split. Qed.
+Lemma same_meta_trans a b c : same_meta a b -> same_meta b c -> same_meta a c.
+Proof. unfold same_meta. intuition congruence. Qed.
+
+Lemma ext_dispatch_anmf d n p rest : ext_dispatch d (mkchunk FCC_ANMF n p) rest = parse_anmf d p.
+Proof. reflexivity. Qed.
+
+Lemma vframe_of_fi_of fo a b w h key hasA data :
+  frame_parts data = Some (a, b) ->
+  vframe_of_fi (fi_of fo a b w h key hasA) = Some (vframe_of true (mkmf data fo)).
+Proof.
+  intros Hp. unfold vframe_of_fi, fi_of, vframe_of. cbn [fi_data fi_alpha fi_ox fi_oy fi_dur fi_blend fi_dispose f_data f_opts].
+  rewrite Hp. unfold even_down. cbn [andb].
+  destruct (o_blend fo =? 1), (o_dispose fo =? 1); reflexivity.
+Qed.
+
+(** one frame: what is written, and the demuxer state after the loop has consumed it *)
+Lemma anmf_one f d fuel tail :
+  aframe_ok f -> len (d_frames d) < maxFrames ->
+  exists d' fi, ext_loop (S fuel) (write_anmf f ++ tail) d = ext_loop fuel tail d' /\
+    same_meta d d' /\ d_frames d' = d_frames d ++ [fi] /\
+    vframe_of_fi fi = Some (vframe_of true f).
+Proof.
+  intros [Hb Hl Hv Hox Hoy Hdur] Hn. destruct f as [data fo]. cbn [f_data f_opts] in *.
+  destruct (valid_frame_facts data Hb Hv) as (a & b & w & h & isl & abit & [Hparts Hsplit Hbf Hbb Hab Hlen _]).
+  pose proof (bf_w _ _ _ _ _ Hbf) as Hw. pose proof (bf_h _ _ _ _ _ Hbf) as Hh.
+  assert (Hd : frame_dims data = (w, h)) by (rewrite frame_dims_eq, Hsplit; apply (bf_dims _ _ _ _ _ Hbf)).
+  rewrite (write_anmf_eq data fo a b w h); auto; try lia.
+  destruct (len_img_chunks a b ltac:(lia) Hab) as (_ & _ & Hrange).
+  rewrite ext_loop_step.
+  2:{ unfold FCC_ANMF. lia. }
+  2:{ rewrite len_app. change (len (anmf_hdr fo w h)) with 16. lia. }
+  rewrite ext_dispatch_anmf.
+  rewrite (parse_anmf_written _ fo a b w h isl abit); auto; try (cbn [add_chunk d_frames]; lia).
+  cbn [bind].
+  eexists. eexists. split; [reflexivity|].
+  split; [repeat split|].
+  split; [reflexivity|].
+  apply vframe_of_fi_of. exact Hparts.
+Qed.
+
+Lemma anmf_run fs : forall d fuel tail,
+  Forall aframe_ok fs -> len (d_frames d) + len fs <= maxFrames ->
+  exists d' fis, ext_loop (length fs + fuel) (flat_map write_anmf fs ++ tail) d = ext_loop fuel tail d' /\
+    same_meta d d' /\ d_frames d' = d_frames d ++ fis /\
+    map vframe_of_fi fis = map (fun f => Some (vframe_of true f)) fs.
+Proof.
+  induction fs as [|f fs IH]; intros d fuel tail Hok Hn.
+  - exists d, []. cbn. rewrite app_nil_r. repeat split.
+  - inversion Hok as [|? ? Hf Hfs]; subst. rewrite len_cons in Hn. pose proof (len_nonneg fs).
+    cbn [flat_map length plus]. rewrite <- app_assoc.
+    destruct (anmf_one f d (length fs + fuel) (flat_map write_anmf fs ++ tail) Hf ltac:(lia))
+      as (d1 & fi & E1 & M1 & F1 & V1).
+    rewrite E1.
+    destruct (IH d1 fuel tail Hfs) as (d2 & fis & E2 & M2 & F2 & V2).
+    { rewrite F1, len_app, len_cons. change (len (@nil frame_info)) with 0. lia. }
+    exists d2, (fi :: fis). split; [exact E2|]. split; [eapply same_meta_trans; eauto|].
+    split; [rewrite F2, F1, <- app_assoc; reflexivity|].
+    cbn [map]. rewrite V1, V2. reflexivity.
+Qed.
+
+(** ---- enough fuel: any successful run needs at most one unit per 8 bytes ---- *)
+Lemma ext_loop_enough f : forall rest d r,
+  bytes_ok rest -> ext_loop f rest d = Ok r -> ext_loop (S (length rest)) rest d = Ok r.
+Proof.
+  induction f as [|f IH]; intros rest d r Hb H; [discriminate|].
+  cbn [ext_loop] in *. unfold ChunkHeaderSize in *.
+  destruct (Z.ltb_spec (len rest) 8); [exact H|].
+  pose proof (read_chunk_spec rest Hb) as Hc.
+  destruct (read_chunk rest) as [[c n]|e|]; [|exact H|contradiction].
+  destruct Hc as (Hn1 & Hn2 & Hsz & _).
+  destruct (ext_dispatch (add_chunk d c) c rest) as [d2|e|]; cbn [bind] in *; try discriminate.
+  destruct (slice rest n (len rest)) as [rest'|e|] eqn:Es; cbn [bind] in *; try discriminate.
+  pose proof (slice_len _ _ _ _ Es) as Hl. pose proof (slice_bytes _ _ _ _ Hb Es) as Hb'.
+  apply (ext_loop_more_fuel (S (length rest'))); [apply IH; assumption|].
+  unfold len in *. lia.
+Qed.
+
+(** ---- metadata / VP8X / ANIM chunks ---- *)
+Lemma ext_step_meta f id p rest d :
+  (id = FCC_ICCP \/ id = FCC_EXIF \/ id = FCC_XMP) -> len p <= maxMetadataSize ->
+  exists d', ext_loop (S f) (enc id p ++ rest) d = ext_loop f rest d' /\
+    d_feat d' = d_feat d /\ d_frames d' = d_frames d /\ d_bg d' = d_bg d /\ d_loop d' = d_loop d /\
+    d_icc d' = (if id =? FCC_ICCP then Some p else d_icc d) /\
+    d_exif d' = (if id =? FCC_EXIF then Some p else d_exif d) /\
+    d_xmp d' = (if id =? FCC_XMP then Some p else d_xmp d).
+Proof.
+  intros Hid Hp.
+  assert (Hp' : len p < 2147483648) by (unfold maxMetadataSize in Hp; lia).
+  assert (Hgt : (len p >? maxMetadataSize) = false) by lia.
+  destruct Hid as [->|[->| ->]].
+  - rewrite ext_loop_step; [|unfold FCC_ICCP; lia|exact Hp'].
+    unfold ext_dispatch. cbn [c_id c_data].
+    change (FCC_ICCP =? FCC_ICCP) with true. cbv iota. rewrite Hgt. cbn [bind].
+    exists (set_icc (add_chunk d (mkchunk FCC_ICCP (len p) p)) p). split; [reflexivity|].
+    cbn. repeat split.
+  - rewrite ext_loop_step; [|unfold FCC_EXIF; lia|exact Hp'].
+    unfold ext_dispatch. cbn [c_id c_data].
+    change (FCC_EXIF =? FCC_ICCP) with false. change (FCC_EXIF =? FCC_EXIF) with true. cbv iota.
+    rewrite Hgt. cbn [bind].
+    exists (set_exif (add_chunk d (mkchunk FCC_EXIF (len p) p)) p). split; [reflexivity|].
+    cbn. repeat split.
+  - rewrite ext_loop_step; [|unfold FCC_XMP; lia|exact Hp'].
+    unfold ext_dispatch. cbn [c_id c_data].
+    change (FCC_XMP =? FCC_ICCP) with false. change (FCC_XMP =? FCC_EXIF) with false.
+    change (FCC_XMP =? FCC_XMP) with true. cbv iota. rewrite Hgt. cbn [bind].
+    exists (set_xmp (add_chunk d (mkchunk FCC_XMP (len p) p)) p). split; [reflexivity|].
+    cbn. repeat split.
+Qed.
+
+Definition ometa_ok (o : option (list Z)) : Prop :=
+  match o with Some p => bytes_ok p /\ len p <= maxMetadataSize | None => True end.
+
+Lemma ometa_write_enc id o : ometa_write id o = match o with Some p => enc id p | None => [] end.
+Proof. reflexivity. Qed.
+
+(** an optional metadata chunk: one unit of fuel is always enough *)
+Lemma ext_step_ometa f id o rest d r :
+  (id = FCC_ICCP \/ id = FCC_EXIF \/ id = FCC_XMP) -> ometa_ok o ->
+  (forall d', d_feat d' = d_feat d -> d_frames d' = d_frames d -> d_bg d' = d_bg d -> d_loop d' = d_loop d ->
+      d_icc d' = (if id =? FCC_ICCP then (match o with Some p => Some p | None => d_icc d end) else d_icc d) ->
+      d_exif d' = (if id =? FCC_EXIF then (match o with Some p => Some p | None => d_exif d end) else d_exif d) ->
+      d_xmp d' = (if id =? FCC_XMP then (match o with Some p => Some p | None => d_xmp d end) else d_xmp d) ->
+      ext_loop f rest d' = Ok r) ->
+  ext_loop (S f) (ometa_write id o ++ rest) d = Ok r.
+Proof.
+  intros Hid Ho Hk. destruct o as [p|]; cbn [ometa_write].
+  - destruct Ho as [_ Hp].
+    destruct (ext_step_meta f id p rest d Hid Hp) as (d' & E & H1 & H2 & H3 & H4 & H5 & H6 & H7).
+    fold (enc id p). rewrite E. apply Hk; auto.
+  - cbn [app]. apply (ext_loop_more_fuel f); [|lia].
+    apply Hk; auto; destruct (id =? FCC_ICCP), (id =? FCC_EXIF), (id =? FCC_XMP); reflexivity.
+Qed.
+
+Lemma ext_step_anim f bg loop rest d :
+  0 <= bg < 4294967296 -> 0 <= loop < 65536 ->
+  exists d', ext_loop (S f) ((le32 FCC_ANIM ++ le32 ANIMChunkSize ++ le32 bg ++ le16 loop) ++ rest) d = ext_loop f rest d' /\
+    d_feat d' = d_feat d /\ d_frames d' = d_frames d /\ d_bg d' = bg /\ d_loop d' = loop /\
+    d_icc d' = d_icc d /\ d_exif d' = d_exif d /\ d_xmp d' = d_xmp d.
+Proof.
+  intros Hbg Hl.
+  assert (E : le32 FCC_ANIM ++ le32 ANIMChunkSize ++ le32 bg ++ le16 loop = enc FCC_ANIM (le32 bg ++ le16 loop)).
+  { unfold enc, write_data_chunk. change (len (le32 bg ++ le16 loop)) with 6.
+    change (u32 6) with 6. change (negb (6 mod 2 =? 0)) with false. cbv iota.
+    rewrite <- !app_assoc, app_nil_r. reflexivity. }
+  rewrite E. rewrite ext_loop_step by (try (vm_compute; split; congruence); change (len (le32 bg ++ le16 loop)) with 6; lia).
+  unfold ext_dispatch. cbn [c_id c_data].
+  change (FCC_ANIM =? FCC_ICCP) with false. change (FCC_ANIM =? FCC_EXIF) with false.
+  change (FCC_ANIM =? FCC_XMP) with false. change (FCC_ANIM =? FCC_ANIM) with true. cbv iota.
+  unfold parse_anim. change (len (le32 bg ++ le16 loop)) with 6. change (6 <? ANIMChunkSize) with false. cbv iota.
+  unfold le32, le16. cbn [app bind].
+  eexists. split; [reflexivity|]. cbn [d_feat d_frames d_bg d_loop d_icc d_exif d_xmp add_chunk].
+  repeat split; lia.
+Qed.
+
+(** ---- byte ranges of what is written ---- *)
+Lemma bytes_ok_enc id p : bytes_ok p -> bytes_ok (enc id p).
+Proof.
+  intros H. unfold enc, write_data_chunk. repeat (apply bytes_ok_app; split); auto using le32_bytes.
+  destruct (negb (len p mod 2 =? 0)); repeat constructor; unfold is_byte; lia.
+Qed.
+
+Lemma bytes_ok_img a b : obytes_ok a -> bytes_ok b -> bytes_ok (img_chunks a b).
+Proof.
+  intros Ha Hb. unfold img_chunks. apply bytes_ok_app. split; [|apply bytes_ok_enc; auto].
+  destruct a; [apply bytes_ok_enc; auto|constructor].
+Qed.
+
+Lemma bytes_ok_ometa id o : ometa_ok o -> bytes_ok (ometa_write id o).
+Proof. destruct o as [p|]; cbn; [intros [H _]; apply (bytes_ok_enc id p H)|constructor]. Qed.
+
+Lemma bytes_ok_anmf_hdr fo w h : bytes_ok (anmf_hdr fo w h).
+Proof.
+  unfold anmf_hdr. repeat (apply bytes_ok_app; split); auto using le24_bytes.
+  constructor; [|constructor]. unfold is_byte, anmf_flag.
+  destruct (o_dispose fo =? 1), (o_blend fo =? 1); lia.
+Qed.
+
+Lemma bytes_ok_write_anmf f : aframe_ok f -> bytes_ok (write_anmf f) /\ 8 <= len (write_anmf f).
+Proof.
+  intros [Hb Hl Hv Hox Hoy Hdur]. destruct f as [data fo]. cbn [f_data f_opts] in *.
+  destruct (valid_frame_facts data Hb Hv) as (a & b & w & h & isl & abit & [Hparts Hsplit Hbf Hbb Hab Hlen _]).
+  pose proof (bf_w _ _ _ _ _ Hbf) as Hw. pose proof (bf_h _ _ _ _ _ Hbf) as Hh.
+  assert (Hd : frame_dims data = (w, h)) by (rewrite frame_dims_eq, Hsplit; apply (bf_dims _ _ _ _ _ Hbf)).
+  rewrite (write_anmf_eq data fo a b w h); auto; try lia.
+  destruct (len_img_chunks a b ltac:(lia) Hab) as (_ & _ & Hrange).
+  split.
+  - apply bytes_ok_enc. apply bytes_ok_app. split; [apply bytes_ok_anmf_hdr|apply bytes_ok_img; auto].
+  - apply enc_len_ge. rewrite len_app. change (len (anmf_hdr fo w h)) with 16. lia.
+Qed.
+
+Lemma bytes_ok_anmfs fs : Forall aframe_ok fs -> bytes_ok (flat_map write_anmf fs).
+Proof.
+  induction 1 as [|f fs Hf _ IH]; cbn [flat_map]; [constructor|].
+  apply bytes_ok_app. split; [apply bytes_ok_write_anmf; auto|exact IH].
+Qed.
+
+(** ---- RIFF size: what assembleExtended adds up is what it writes ---- *)
+Lemma ometa_size_correct id o : ometa_ok o -> len (ometa_write id o) = ometa_size o.
+Proof.
+  destruct o as [p|]; cbn [ometa_write ometa_size]; [|reflexivity].
+  intros [_ Hp]. apply chunk_total_correct. unfold maxMetadataSize in Hp. lia.
+Qed.
+
+Lemma anmfs_size_correct fs : Forall aframe_ok fs -> forall acc,
+  fold_left (fun acc f => acc + frame_riff_size repaired true f) fs acc = acc + len (flat_map write_anmf fs).
+Proof.
+  induction 1 as [|f fs Hf _ IH]; intros acc; cbn [fold_left flat_map].
+  - change (len (@nil Z)) with 0. lia.
+  - rewrite IH, len_app. destruct (anmf_size_correct f (af_len f Hf)) as [E _]. rewrite E. lia.
+Qed.
+
+(** ---- the RIFF header as the demuxer reads it ---- *)
+Lemma parse_riff_written n body :
+  n = 4 + len body -> n < 4294967296 -> 8 <= len body ->
+  parse true (le32 FCC_RIFF ++ le32 n ++ le32 FCC_WEBP ++ body) =
+    bind (u32at body 0) (fun firstTag =>
+      if firstTag =? FCC_VP8X then parse_extended body
+      else if firstTag =? FCC_VP8 then parse_simple_vp8 body
+      else if firstTag =? FCC_VP8L then parse_simple_vp8l body
+      else Err E_unknown).
+Proof.
+  intros Hn Hlt H8. pose proof (len_nonneg body).
+  set (file := le32 FCC_RIFF ++ le32 n ++ le32 FCC_WEBP ++ body).
+  assert (Hflen : len file = 12 + len body) by (unfold file; rewrite !len_app, !len_le32; lia).
+  unfold parse. fold file. unfold RIFFHeaderSize. rewrite Hflen.
+  destruct (Z.ltb_spec (12 + len body) 12); [lia|].
+  assert (Hu0 : u32at file 0 = Ok FCC_RIFF) by (unfold file; apply u32at_le32_head; vm_compute; split; congruence).
+  assert (Hu4 : u32at file 4 = Ok n) by (unfold file; apply u32at_le32_second; lia).
+  assert (Hu8 : u32at file 8 = Ok FCC_WEBP).
+  { unfold u32at, file.
+    replace (le32 FCC_RIFF ++ le32 n ++ le32 FCC_WEBP ++ body)
+      with ((le32 FCC_RIFF ++ le32 n) ++ le32 FCC_WEBP ++ body) by (rewrite <- !app_assoc; reflexivity).
+    rewrite (slice_app_mid' (le32 FCC_RIFF ++ le32 n) (le32 FCC_WEBP) body) by reflexivity. reflexivity. }
+  rewrite Hu0. cbn [bind]. rewrite Z.eqb_refl. cbn [negb].
+  rewrite Hu4. cbn [bind]. rewrite Hu8. cbn [bind]. rewrite Z.eqb_refl. cbn [negb].
+  destruct (Z.gtb_spec (n + 8) (12 + len body)); [lia|].
+  unfold maxint. destruct (Z.gtb_spec (n + 8) (2 ^ 63 - 1)); [lia|].
+  cbn [andb]. destruct (Z.ltb_spec (n + 8) 12); [lia|].
+  assert (Hsl : slice file 12 (n + 8) = Ok body).
+  { unfold file.
+    replace (le32 FCC_RIFF ++ le32 n ++ le32 FCC_WEBP ++ body)
+      with ((le32 FCC_RIFF ++ le32 n ++ le32 FCC_WEBP) ++ body ++ []) by (rewrite <- !app_assoc, app_nil_r; reflexivity).
+    apply slice_app_mid'; [reflexivity|]. change (len (le32 FCC_RIFF ++ le32 n ++ le32 FCC_WEBP)) with 12. lia. }
+  rewrite Hsl. cbn [bind]. unfold ChunkHeaderSize.
+  destruct (Z.ltb_spec (len body) 8); [lia|]. reflexivity.
+Qed.
+
+(** ---- parseExtended on a written VP8X chunk ---- *)
+Definition vp8x_payload (flags cw ch : Z) : list Z := [flags; 0; 0; 0] ++ le24 (cw - 1) ++ le24 (ch - 1).
+
+Lemma vp8x_written flags cw ch :
+  le32 FCC_VP8X ++ le32 VP8XChunkSize ++ [flags; 0; 0; 0] ++ le24 (cw - 1) ++ le24 (ch - 1) =
+  enc FCC_VP8X (vp8x_payload flags cw ch).
+Proof.
+  unfold enc, write_data_chunk, vp8x_payload. change (len ([flags; 0; 0; 0] ++ le24 (cw - 1) ++ le24 (ch - 1))) with 10.
+  change (u32 10) with 10. change (negb (10 mod 2 =? 0)) with false. cbv iota.
+  rewrite <- !app_assoc, app_nil_r. reflexivity.
+Qed.
+
+Definition d0_of (flags cw ch : Z) : dstate :=
+  let bit k := negb ((flags / k) mod 2 =? 0) in
+  mkd [mkchunk FCC_VP8X 10 (vp8x_payload flags cw ch)]
+      (mkfeat cw ch (bit 16) (bit 2) (bit 32) (bit 8) (bit 4) 3) [] None None None 0 0.
+
+Lemma parse_extended_written flags cw ch rest :
+  1 <= cw <= 16777216 -> 1 <= ch <= 16777216 -> cw * ch < MaxImageArea ->
+  parse_extended (enc FCC_VP8X (vp8x_payload flags cw ch) ++ rest) =
+    bind (ext_loop (S (length rest)) rest (d0_of flags cw ch))
+         (fun d' => if len (d_frames d') =? 0 then Err E_noimage else Ok d').
+Proof.
+  intros Hw Hh Harea. unfold parse_extended, enc.
+  rewrite read_chunk_write by (try (vm_compute; split; congruence); change (len (vp8x_payload flags cw ch)) with 10; unfold MaxChunkPayload; lia).
+  cbn [bind c_size c_data]. change (len (vp8x_payload flags cw ch)) with 10.
+  change (10 <? VP8XChunkSize) with false. cbv iota.
+  rewrite slice_after. cbn [bind].
+  unfold vp8x_payload at 1. unfold le24 at 1 2. cbn [app].
+  rewrite !le24_rd by lia.
+  replace (cw - 1 + 1) with cw by lia. replace (ch - 1 + 1) with ch by lia.
+  destruct (Z.geb_spec (cw * ch) MaxImageArea); [lia|].
+  reflexivity.
+Qed.
+
+(** ---- muxer states reached by histories satisfying the hypotheses ---- *)
+Definition mframe_ok (f : mframe) : Prop :=
+  bytes_ok (f_data f) /\ len (f_data f) < 1073741824 /\ valid_frame (f_data f) = true /\
+  0 <= o_dur (f_opts f) <= maxDuration.
+
+Record mok (m : mstate) : Prop := {
+  mk_frames : Forall mframe_ok (m_frames m);
+  mk_icc : ometa_ok (m_icc m);
+  mk_exif : ometa_ok (m_exif m);
+  mk_xmp : ometa_ok (m_xmp m);
+  mk_bg : 0 <= m_bg m < 4294967296;
+  mk_loop : 0 <= m_loop m < 65536;
+  mk_n : len (m_frames m) <= MaxFrames }.
+
+Lemma canvas_fold_nonneg fs : forall acc, 0 <= fst acc -> 0 <= snd acc ->
+  let r := fold_left (fun (acc : Z * Z) f =>
+        let '(fw, fh) := frame_dims (f_data f) in
+        let ox := o_ox (f_opts f) in let oy := o_oy (f_opts f) in
+        let endX := wrap64 (ox + fw) in
+        let endY := wrap64 (oy + fh) in
+        let endX := if (fw >? 0) && (endX <? ox) then maxint else endX in
+        let endY := if (fh >? 0) && (endY <? oy) then maxint else endY in
+        (if endX >? fst acc then endX else fst acc, if endY >? snd acc then endY else snd acc)) fs acc in
+  0 <= fst r /\ 0 <= snd r.
+Proof.
+  induction fs as [|f fs IH]; intros acc H1 H2; cbn [fold_left]; [auto|].
+  apply IH; destruct (frame_dims (f_data f)) as [fw fh]; cbn [fst snd].
+  - match goal with |- 0 <= (if ?c then _ else _) => destruct c eqn:E end; lia.
+  - match goal with |- 0 <= (if ?c then _ else _) => destruct c eqn:E end; lia.
+Qed.
+
+Lemma canvas_size_pos m : 1 <= fst (canvas_size m) /\ 1 <= snd (canvas_size m).
+Proof.
+  unfold canvas_size.
+  destruct ((m_cw m >? 0) && (m_ch m >? 0)) eqn:E; [cbn [fst snd]; lia|].
+  destruct (m_frames m) as [|f fs] eqn:Ef; [cbn; lia|].
+  pose proof (canvas_fold_nonneg (f :: fs) (0, 0) ltac:(cbn; lia) ltac:(cbn; lia)) as H. cbv zeta in H.
+  match goal with |- context [fold_left ?g ?l ?a] => destruct (fold_left g l a) as [mw mh] end.
+  cbn [fst snd] in *. destruct (mw =? 0) eqn:E1, (mh =? 0) eqn:E2; cbn [fst snd]; lia.
+Qed.
+
+Lemma validate_facts m : validate repaired m = Ok tt ->
+  m_frames m <> [] /\
+  fst (canvas_size m) <= MaxCanvasSize /\ snd (canvas_size m) <= MaxCanvasSize /\
+  fst (canvas_size m) * snd (canvas_size m) < MaxImageArea /\
+  (is_animated m = false -> exists f, m_frames m = [f]) /\
+  Forall (fun f => 0 <= o_ox (f_opts f) < 33554432 /\ 0 <= o_oy (f_opts f) < 33554432 /\
+                   (is_animated m = false -> o_ox (f_opts f) = 0 /\ o_oy (f_opts f) = 0)) (m_frames m).
+Proof.
+  unfold validate. cbn [fx_validate repaired andb].
+  destruct (Z.eqb_spec (len (m_frames m)) 0) as [|Hne]; [discriminate|].
+  match goal with |- context [if (if is_animated m then ?a else ?b) then _ else _] =>
+    destruct (if is_animated m then a else b) eqn:Ecnt end; [discriminate|].
+  destruct (canvas_size m) as [cw ch] eqn:Ecs. cbn [fst snd].
+  match goal with |- context [if ?c then Err E_validate else _] => destruct c eqn:Elim end; [discriminate|].
+  destruct (forallb _ (m_frames m)) eqn:Efa; [|discriminate]. intros _.
+  rewrite !orb_false_iff in Elim. destruct Elim as [[E1 E2] E3].
+  split; [intros E; rewrite E in Hne; apply Hne; reflexivity|].
+  split; [lia|]. split; [lia|]. split; [lia|].
+  split.
+  - intros Ha. rewrite Ha in Ecnt. apply negb_false_iff in Ecnt. apply Z.eqb_eq in Ecnt.
+    unfold len in Ecnt. destruct (m_frames m) as [|f [|g tl]]; cbn [length] in Ecnt; try lia. eauto.
+  - apply Forall_forall. intros f Hin. rewrite forallb_forall in Efa. specialize (Efa f Hin).
+    unfold validate_frame in Efa. cbn [fx_validate repaired] in Efa.
+    destruct (frame_dims (f_data f)) as [fw fh].
+    apply andb_true_iff in Efa. destruct Efa as [Epre _].
+    apply andb_true_iff in Epre. destruct Epre as [Er Es].
+    apply negb_true_iff in Er. rewrite !orb_false_iff in Er. destruct Er as [[[R1 R2] R3] R4].
+    unfold MaxPositionOff in *.
+    assert (0 <= o_ox (f_opts f)) by lia. assert (0 <= o_oy (f_opts f)) by lia.
+    rewrite Z.quot_div_nonneg in R3, R4 by lia.
+    split; [lia|]. split; [lia|].
+    intros Ha. rewrite Ha in Es. cbn [orb] in Es. lia.
+Qed.
+
+Lemma all_some_map {A} (l : list A) ol : ol = map Some l -> all_some ol = Some l.
+Proof. intros ->. induction l as [|x l IH]; cbn; [reflexivity|rewrite IH; reflexivity]. Qed.
+
+Lemma aframe_of_mok m f : mok m -> validate repaired m = Ok tt -> In f (m_frames m) -> aframe_ok f.
+Proof.
+  intros Hm Hv Hin. destruct (validate_facts m Hv) as (_ & _ & _ & _ & _ & Hoff).
+  pose proof (mk_frames m Hm) as Hf. rewrite Forall_forall in Hf, Hoff.
+  destruct (Hf f Hin) as (H1 & H2 & H3 & H4). destruct (Hoff f Hin) as (H5 & H6 & _).
+  constructor; auto.
+Qed.
+
+Lemma Ok_inj {A} (a b : A) : Ok a = Ok b -> a = b.
+Proof. intros H. injection H. auto. Qed.
+
+Lemma ext_loop_nil f d : ext_loop (S f) [] d = Ok d.
+Proof. reflexivity. Qed.
+
+(** ---- animations: any number of frames, with or without ALPH sub-chunks ---- *)
+Theorem animated_roundtrip m bs :
+  mok m -> is_animated m = true -> assemble repaired m = Ok bs ->
+  bytes_ok bs /\ rd32 (firstn 4 (skipn 4 bs)) + 8 = len bs /\
+  exists d, parse true bs = Ok d /\ view_of_demux d = Some (view_of_mux m).
+Proof.
+  intros Hm Hanim Hasm. unfold assemble in Hasm.
+  destruct (validate repaired m) as [[]|e|] eqn:Hval; cbn [bind] in Hasm; try discriminate.
+  unfold needs_vp8x in Hasm. rewrite Hanim in Hasm. cbn [orb] in Hasm.
+  destruct (validate_facts m Hval) as (Hne & Hcw & Hch & Harea & _ & _).
+  pose proof (canvas_size_pos m) as [Hcw1 Hch1].
+  assert (Hfs : Forall aframe_ok (m_frames m)).
+  { apply Forall_forall. intros f Hin. eapply aframe_of_mok; eauto. }
+  unfold assemble_extended in Hasm. rewrite Hanim in Hasm.
+  destruct (canvas_size m) as [cw ch] eqn:Ecs. cbn [fst snd] in *.
+  rewrite (anmfs_size_correct _ Hfs) in Hasm.
+  rewrite <- (ometa_size_correct FCC_ICCP _ (mk_icc m Hm)) in Hasm.
+  rewrite <- (ometa_size_correct FCC_EXIF _ (mk_exif m Hm)) in Hasm.
+  rewrite <- (ometa_size_correct FCC_XMP _ (mk_xmp m Hm)) in Hasm.
+  match type of Hasm with (if ?n >? _ then _ else _) = _ => set (riff := n) in * end.
+  destruct (Z.gtb_spec riff 4294967295) as [|Hriff]; [discriminate|].
+  apply Ok_inj in Hasm. subst bs.
+  assert (Hwf : flat_map (write_frame repaired true) (m_frames m) = flat_map write_anmf (m_frames m)) by reflexivity.
+  rewrite Hwf. clear Hwf.
+  set (anim := le32 FCC_ANIM ++ le32 ANIMChunkSize ++ le32 (m_bg m) ++ le16 (m_loop m)).
+  set (rest := ometa_write FCC_ICCP (m_icc m) ++ anim ++ flat_map write_anmf (m_frames m) ++
+               ometa_write FCC_EXIF (m_exif m) ++ ometa_write FCC_XMP (m_xmp m)).
+  set (body := enc FCC_VP8X (vp8x_payload (vp8x_flags m) cw ch) ++ rest).
+  assert (Hfile : le32 FCC_RIFF ++ le32 riff ++ le32 FCC_WEBP ++
+                  le32 FCC_VP8X ++ le32 VP8XChunkSize ++ [vp8x_flags m; 0; 0; 0] ++ le24 (cw - 1) ++ le24 (ch - 1) ++ rest
+                = le32 FCC_RIFF ++ le32 riff ++ le32 FCC_WEBP ++ body).
+  { unfold body. rewrite <- vp8x_written. rewrite <- !app_assoc. reflexivity. }
+  rewrite Hfile. clear Hfile.
+  assert (Hriffeq : riff = 4 + len body).
+  { unfold riff, body, rest, anim. rewrite !len_app. unfold ChunkHeaderSize, VP8XChunkSize, ANIMChunkSize.
+    change (len (enc FCC_VP8X (vp8x_payload (vp8x_flags m) cw ch))) with 18. rewrite !len_le32.
+    change (len (le16 (m_loop m))) with 2. lia. }
+  assert (Hrestb : bytes_ok rest).
+  { unfold rest, anim. repeat (apply bytes_ok_app; split); auto using le32_bytes, le16_bytes, bytes_ok_ometa, mk_icc, mk_exif, mk_xmp, bytes_ok_anmfs. }
+  assert (Hflags : 0 <= vp8x_flags m < 256).
+  { unfold vp8x_flags. destruct (is_animated m), (is_some (m_icc m)), (is_some (m_exif m)), (is_some (m_xmp m)), (has_alpha m); lia. }
+  assert (Hbodyb : bytes_ok body).
+  { unfold body. apply bytes_ok_app. split; [|exact Hrestb]. apply bytes_ok_enc.
+    unfold vp8x_payload, le24, bytes_ok. cbn [app].
+    repeat (apply Forall_cons; [unfold is_byte; lia|]). apply Forall_nil. }
+  assert (Hb8 : 8 <= len body).
+  { unfold body. rewrite len_app. change (len (enc FCC_VP8X (vp8x_payload (vp8x_flags m) cw ch))) with 18.
+    pose proof (len_nonneg rest). lia. }
+  split; [|split].
+  { apply bytes_ok_app; split; [apply le32_bytes|]. apply bytes_ok_app; split; [apply le32_bytes|].
+    apply bytes_ok_app; split; [apply le32_bytes|exact Hbodyb]. }
+  { change (le32 FCC_RIFF) with [82; 73; 70; 70]. cbn [app skipn].
+    rewrite !len_cons, !len_app, !len_le32.
+    replace (firstn 4 (le32 riff ++ le32 FCC_WEBP ++ body)) with (le32 riff) by reflexivity.
+    rewrite <- (app_nil_r (le32 riff)), rd32_le32 by (pose proof (len_nonneg body); lia). lia. }
+  rewrite parse_riff_written by (auto; lia).
+  assert (Hft : u32at body 0 = Ok FCC_VP8X).
+  { unfold body, enc, write_data_chunk. rewrite <- !app_assoc. apply u32at_le32_head. vm_compute. split; congruence. }
+  rewrite Hft. cbn [bind]. rewrite Z.eqb_refl.
+  unfold body. rewrite parse_extended_written by (unfold MaxCanvasSize in *; lia).
+  (* run the chunk loop *)
+  pose proof (mk_bg m Hm) as Hbg. pose proof (mk_loop m Hm) as Hloop.
+  assert (Hrun : exists d, ext_loop (S (S (length (m_frames m) + S (S (S O))))) rest (d0_of (vp8x_flags m) cw ch) = Ok d /\
+            d_feat d = d_feat (d0_of (vp8x_flags m) cw ch) /\ d_bg d = m_bg m /\ d_loop d = m_loop m /\
+            d_icc d = m_icc m /\ d_exif d = m_exif m /\ d_xmp d = m_xmp m /\
+            map vframe_of_fi (d_frames d) = map (fun f => Some (vframe_of true f)) (m_frames m) /\
+            d_frames d <> []).
+  { unfold rest.
+    (* ICCP *)
+    assert (Hic : forall r, (forall d', d_feat d' = d_feat (d0_of (vp8x_flags m) cw ch) -> d_frames d' = [] ->
+                    d_icc d' = m_icc m -> d_exif d' = None -> d_xmp d' = None ->
+                    ext_loop (S (length (m_frames m) + S (S (S O))))
+                      (anim ++ flat_map write_anmf (m_frames m) ++ ometa_write FCC_EXIF (m_exif m) ++ ometa_write FCC_XMP (m_xmp m)) d' = Ok r) ->
+                  ext_loop (S (S (length (m_frames m) + S (S (S O)))))
+                    (ometa_write FCC_ICCP (m_icc m) ++ anim ++ flat_map write_anmf (m_frames m) ++
+                     ometa_write FCC_EXIF (m_exif m) ++ ometa_write FCC_XMP (m_xmp m)) (d0_of (vp8x_flags m) cw ch) = Ok r).
+    { intros r Hk. apply ext_step_ometa; [auto|apply (mk_icc m Hm)|].
+      intros d' F1 F2 F3 F4 F5 F6 F7. apply Hk; auto.
+      - change (FCC_ICCP =? FCC_ICCP) with true in F5. cbv iota in F5. rewrite F5. destruct (m_icc m); reflexivity. }
+    (* ANIM *)
+    assert (Han : forall d', exists d2, ext_loop (S (length (m_frames m) + S (S (S O))))
+                      (anim ++ flat_map write_anmf (m_frames m) ++ ometa_write FCC_EXIF (m_exif m) ++ ometa_write FCC_XMP (m_xmp m)) d'
+                    = ext_loop (length (m_frames m) + S (S (S O)))
+                      (flat_map write_anmf (m_frames m) ++ ometa_write FCC_EXIF (m_exif m) ++ ometa_write FCC_XMP (m_xmp m)) d2 /\
+                    d_feat d2 = d_feat d' /\ d_frames d2 = d_frames d' /\ d_bg d2 = m_bg m /\ d_loop d2 = m_loop m /\
+                    d_icc d2 = d_icc d' /\ d_exif d2 = d_exif d' /\ d_xmp d2 = d_xmp d').
+    { intros d'. unfold anim. apply ext_step_anim; auto. }
+    (* assemble the chain backwards *)
+    set (dI := fun d' : dstate => d').
+    destruct (Han (match m_icc m with
+                   | Some p => set_icc (add_chunk (d0_of (vp8x_flags m) cw ch) (mkchunk FCC_ICCP (len p) p)) p
+                   | None => d0_of (vp8x_flags m) cw ch end)) as (d2 & E2 & G1 & G2 & G3 & G4 & G5 & G6 & G7).
+    assert (Hd2fr : d_frames d2 = []) by (rewrite G2; destruct (m_icc m); reflexivity).
+    destruct (anmf_run (m_frames m) d2 (S (S (S O)))
+                (ometa_write FCC_EXIF (m_exif m) ++ ometa_write FCC_XMP (m_xmp m)) Hfs) as (d3 & fis & E3 & M3 & F3 & V3).
+    { rewrite Hd2fr. change (len (@nil frame_info)) with 0. pose proof (mk_n m Hm). unfold MaxFrames, maxFrames in *. lia. }
+    destruct M3 as (M31 & M32 & M33 & M34 & M35 & M36).
+    (* EXIF, XMP, end *)
+    assert (Hend : exists d, ext_loop (S (S (S O))) (ometa_write FCC_EXIF (m_exif m) ++ ometa_write FCC_XMP (m_xmp m)) d3 = Ok d /\
+              d_feat d = d_feat d3 /\ d_frames d = d_frames d3 /\ d_bg d = d_bg d3 /\ d_loop d = d_loop d3 /\
+              d_icc d = d_icc d3 /\
+              d_exif d = (match m_exif m with Some p => Some p | None => d_exif d3 end) /\
+              d_xmp d = (match m_xmp m with Some p => Some p | None => d_xmp d3 end)).
+    { destruct (m_exif m) as [pe|] eqn:Ee; destruct (m_xmp m) as [px|] eqn:Ex; cbn [ometa_write app].
+      - pose proof (mk_exif m Hm) as He. pose proof (mk_xmp m Hm) as Hx. rewrite Ee in He. rewrite Ex in Hx.
+        destruct He as [_ He]. destruct Hx as [_ Hx].
+        destruct (ext_step_meta 2 FCC_EXIF pe (enc FCC_XMP px) d3 ltac:(auto) He) as (d4 & E4 & A1 & A2 & A3 & A4 & A5 & A6 & A7).
+        fold (enc FCC_EXIF pe). fold (enc FCC_XMP px). rewrite E4.
+        rewrite <- (app_nil_r (enc FCC_XMP px)).
+        destruct (ext_step_meta 1 FCC_XMP px [] d4 ltac:(auto) Hx) as (d5 & E5 & B1 & B2 & B3 & B4 & B5 & B6 & B7).
+        rewrite E5. exists d5. split; [reflexivity|].
+        change (FCC_EXIF =? FCC_ICCP) with false in *. change (FCC_EXIF =? FCC_EXIF) with true in *.
+        change (FCC_EXIF =? FCC_XMP) with false in *. change (FCC_XMP =? FCC_ICCP) with false in *.
+        change (FCC_XMP =? FCC_EXIF) with false in *. change (FCC_XMP =? FCC_XMP) with true in *.
+        cbv iota in *. repeat split; congruence.
+      - pose proof (mk_exif m Hm) as He. rewrite Ee in He. destruct He as [_ He].
+        rewrite app_nil_r. rewrite <- (app_nil_r (write_data_chunk FCC_EXIF pe)). fold (enc FCC_EXIF pe).
+        destruct (ext_step_meta 2 FCC_EXIF pe [] d3 ltac:(auto) He) as (d4 & E4 & A1 & A2 & A3 & A4 & A5 & A6 & A7).
+        rewrite E4. exists d4. split; [reflexivity|].
+        change (FCC_EXIF =? FCC_ICCP) with false in *. change (FCC_EXIF =? FCC_EXIF) with true in *.
+        change (FCC_EXIF =? FCC_XMP) with false in *. cbv iota in *. repeat split; congruence.
+      - pose proof (mk_xmp m Hm) as Hx. rewrite Ex in Hx. destruct Hx as [_ Hx].
+        rewrite <- (app_nil_r (write_data_chunk FCC_XMP px)). fold (enc FCC_XMP px).
+        destruct (ext_step_meta 2 FCC_XMP px [] d3 ltac:(auto) Hx) as (d4 & E4 & A1 & A2 & A3 & A4 & A5 & A6 & A7).
+        rewrite E4. exists d4. split; [reflexivity|].
+        change (FCC_XMP =? FCC_ICCP) with false in *. change (FCC_XMP =? FCC_EXIF) with false in *.
+        change (FCC_XMP =? FCC_XMP) with true in *. cbv iota in *. repeat split; congruence.
+      - exists d3. split; [reflexivity|]. repeat split. }
+    destruct Hend as (d5 & E5 & H1 & H2 & H3 & H4 & H5 & H6 & H7).
+    exists d5. split.
+    - destruct (m_icc m) as [pi|] eqn:Ei; cbn [ometa_write].
+      + pose proof (mk_icc m Hm) as Hi. rewrite Ei in Hi. destruct Hi as [_ Hi].
+        fold (enc FCC_ICCP pi).
+        rewrite ext_loop_step; [|unfold FCC_ICCP; lia|unfold maxMetadataSize in Hi; lia].
+        unfold ext_dispatch at 1. cbn [c_id c_data]. change (FCC_ICCP =? FCC_ICCP) with true. cbv iota.
+        replace (len pi >? maxMetadataSize) with false by lia. cbn [bind].
+        rewrite E2, E3. exact E5.
+      + cbn [app]. apply (ext_loop_more_fuel (S (length (m_frames m) + 3))); [|lia].
+        rewrite E2, E3. exact E5.
+    - rewrite H1, M31, G1. rewrite H3, M35, G3. rewrite H4, M36, G4. rewrite H5, M32, G5.
+      rewrite H6, M33, G6. rewrite H7, M34, G7. rewrite H2, F3, Hd2fr. cbn [app].
+      repeat split.
+      + destruct (m_icc m); reflexivity.
+      + destruct (m_icc m); reflexivity.
+      + destruct (m_exif m); [reflexivity|]. destruct (m_icc m); reflexivity.
+      + destruct (m_xmp m); [reflexivity|]. destruct (m_icc m); reflexivity.
+      + exact V3.
+      + intros ->. destruct (m_frames m); [contradiction|discriminate]. }
+  destruct Hrun as (d & Erun & R1 & R2 & R3 & R4 & R5 & R6 & R7 & R8).
+  rewrite (ext_loop_enough _ _ _ _ Hrestb Erun). cbn [bind].
+  destruct (Z.eqb_spec (len (d_frames d)) 0) as [E0|_].
+  { exfalso. apply R8. unfold len in E0. destruct (d_frames d); [reflexivity|cbn in E0; lia]. }
+  exists d. split; [reflexivity|].
+  unfold view_of_demux, view_of_mux. rewrite Hanim, Ecs.
+  rewrite (all_some_map (map (vframe_of true) (m_frames m))) by (rewrite R7, map_map; reflexivity).
+  rewrite R1, R2, R3, R4, R5, R6. cbn [d_feat d0_of ft_w ft_h ft_anim].
+  destruct (flags_derivation m) as (Fa & _). cbv zeta in Fa. rewrite Fa, Hanim. reflexivity.
+Qed.
+
+(** ---- still pictures in the extended layout (metadata and/or ALPH) ---- *)
+
+Lemma ext_end_meta oe ox d3 : ometa_ok oe -> ometa_ok ox ->
+  exists d, ext_loop (S (S (S O))) (ometa_write FCC_EXIF oe ++ ometa_write FCC_XMP ox) d3 = Ok d /\
+    d_feat d = d_feat d3 /\ d_frames d = d_frames d3 /\ d_bg d = d_bg d3 /\ d_loop d = d_loop d3 /\
+    d_icc d = d_icc d3 /\
+    d_exif d = (match oe with Some p => Some p | None => d_exif d3 end) /\
+    d_xmp d = (match ox with Some p => Some p | None => d_xmp d3 end).
+Proof.
+  intros He Hx. destruct oe as [pe|]; destruct ox as [px|]; cbn [ometa_write app].
+  - destruct He as [_ He]. destruct Hx as [_ Hx].
+    destruct (ext_step_meta 2 FCC_EXIF pe (enc FCC_XMP px) d3 ltac:(auto) He) as (d4 & E4 & A1 & A2 & A3 & A4 & A5 & A6 & A7).
+    fold (enc FCC_EXIF pe). fold (enc FCC_XMP px). rewrite E4.
+    rewrite <- (app_nil_r (enc FCC_XMP px)).
+    destruct (ext_step_meta 1 FCC_XMP px [] d4 ltac:(auto) Hx) as (d5 & E5 & B1 & B2 & B3 & B4 & B5 & B6 & B7).
+    rewrite E5. exists d5. split; [reflexivity|].
+    change (FCC_EXIF =? FCC_ICCP) with false in *. change (FCC_EXIF =? FCC_EXIF) with true in *.
+    change (FCC_EXIF =? FCC_XMP) with false in *. change (FCC_XMP =? FCC_ICCP) with false in *.
+    change (FCC_XMP =? FCC_EXIF) with false in *. change (FCC_XMP =? FCC_XMP) with true in *.
+    cbv iota in *. repeat split; congruence.
+  - destruct He as [_ He].
+    rewrite app_nil_r. rewrite <- (app_nil_r (write_data_chunk FCC_EXIF pe)). fold (enc FCC_EXIF pe).
+    destruct (ext_step_meta 2 FCC_EXIF pe [] d3 ltac:(auto) He) as (d4 & E4 & A1 & A2 & A3 & A4 & A5 & A6 & A7).
+    rewrite E4. exists d4. split; [reflexivity|].
+    change (FCC_EXIF =? FCC_ICCP) with false in *. change (FCC_EXIF =? FCC_EXIF) with true in *.
+    change (FCC_EXIF =? FCC_XMP) with false in *. cbv iota in *. repeat split; congruence.
+  - destruct Hx as [_ Hx].
+    rewrite <- (app_nil_r (write_data_chunk FCC_XMP px)). fold (enc FCC_XMP px).
+    destruct (ext_step_meta 2 FCC_XMP px [] d3 ltac:(auto) Hx) as (d4 & E4 & A1 & A2 & A3 & A4 & A5 & A6 & A7).
+    rewrite E4. exists d4. split; [reflexivity|].
+    change (FCC_XMP =? FCC_ICCP) with false in *. change (FCC_XMP =? FCC_EXIF) with false in *.
+    change (FCC_XMP =? FCC_XMP) with true in *. cbv iota in *. repeat split; congruence.
+  - exists d3. split; [reflexivity|]. repeat split.
+Qed.
+
+Lemma ext_dispatch_image d id n p rest :
+  (id = FCC_VP8 \/ id = FCC_VP8L \/ id = FCC_ALPH) ->
+  ext_dispatch d (mkchunk id n p) rest =
+    if negb (ft_anim (d_feat d)) && (len (d_frames d) =? 0) then parse_single_ext d rest else Ok d.
+Proof. intros [->|[->| ->]]; reflexivity. Qed.
+
+(** parseSingleExtendedFrame on the chunks written for a still picture *)
+Lemma parse_single_ext_written d a b w h isl abit tail :
+  bfacts b w h isl abit -> olen a + len b < 1073741824 -> obytes_ok a ->
+  parse_single_ext d (img_chunks a b ++ tail) =
+    Ok (DemuxModel.set_frames d [mkfi (Some b) a (ft_w (d_feat d)) (ft_h (d_feat d)) 0 0 0 true (has_a a isl abit) 0 0]).
+Proof.
+  intros Hbf Hl Ha. pose proof (len_nonneg b). assert (0 <= olen a) by (destruct a; cbn; [apply len_nonneg|lia]).
+  destruct (detect_type_range b) as (Hr & Himg & Hna).
+  unfold parse_single_ext.
+  assert (Hsl : single_loop (S (length (img_chunks a b ++ tail))) (img_chunks a b ++ tail) None None = Ok (Some b, a)).
+  { apply (single_loop_more_fuel 2).
+    - unfold img_chunks. destruct a as [x|]; cbn [olen] in *.
+      + pose proof (len_nonneg x). rewrite <- !app_assoc.
+        rewrite single_loop_step_alph by lia.
+        rewrite single_loop_step_img by (auto; lia). reflexivity.
+      + cbn [app]. rewrite single_loop_step_img by (auto; lia). reflexivity.
+    - assert (8 <= len (img_chunks a b ++ tail)).
+      { unfold img_chunks. rewrite !len_app. pose proof (enc_len_ge (detect_type b) b ltac:(lia)).
+        pose proof (len_nonneg (match a with Some x => enc FCC_ALPH x | None => [] end)). pose proof (len_nonneg tail). lia. }
+      unfold len in *. lia. }
+  rewrite Hsl. cbn [bind].
+  assert (HhA : (if 0 <? olen a then Ok true else frame_data_has_alpha b) = Ok (has_a a isl abit)).
+  { unfold has_a. destruct (0 <? olen a); [reflexivity|]. cbn [orb]. apply (bf_fha _ _ _ _ _ Hbf). }
+  rewrite HhA. reflexivity.
+Qed.
+
+(** the image chunks of a still picture inside the chunk loop *)
+Lemma ext_still_image d a b w h isl abit tail f :
+  bfacts b w h isl abit -> olen a + len b < 1073741824 -> obytes_ok a ->
+  ft_anim (d_feat d) = false -> d_frames d = [] ->
+  exists d',
+    (forall r, ext_loop f tail d' = Ok r -> ext_loop (S (S f)) (img_chunks a b ++ tail) d = Ok r) /\
+    d_feat d' = d_feat d /\ d_bg d' = d_bg d /\ d_loop d' = d_loop d /\
+    d_icc d' = d_icc d /\ d_exif d' = d_exif d /\ d_xmp d' = d_xmp d /\
+    d_frames d' = [mkfi (Some b) a (ft_w (d_feat d)) (ft_h (d_feat d)) 0 0 0 true (has_a a isl abit) 0 0].
+Proof.
+  intros Hbf Hl Ha Hanim Hfr. pose proof (len_nonneg b). assert (0 <= olen a) by (destruct a; cbn; [apply len_nonneg|lia]).
+  destruct (detect_type_range b) as (Hr & Himg & Hna).
+  assert (Hdt : detect_type b = FCC_VP8 \/ detect_type b = FCC_VP8L \/ detect_type b = FCC_ALPH).
+  { unfold detect_type. destruct b as [|b0 tl]; [auto|]. destruct (b0 =? VP8LMagicByte); auto. }
+  destruct a as [x|]; cbn [olen] in *.
+  - pose proof (len_nonneg x).
+    assert (E : img_chunks (Some x) b ++ tail = enc FCC_ALPH x ++ (enc (detect_type b) b ++ tail)).
+    { unfold img_chunks. rewrite <- app_assoc. reflexivity. }
+    eexists. split.
+    + intros r Hk. rewrite E. rewrite ext_loop_step; [|unfold FCC_ALPH; lia|lia].
+      rewrite ext_dispatch_image by auto.
+      cbn [add_chunk d_feat d_frames]. rewrite Hanim, Hfr. cbn [negb andb len length Z.of_nat Z.eqb].
+      rewrite <- E. rewrite (parse_single_ext_written _ (Some x) b w h isl abit tail) by (auto; cbn [olen]; lia).
+      cbn [bind].
+      rewrite ext_loop_step by lia.
+      rewrite ext_dispatch_image by auto.
+      cbn [add_chunk DemuxModel.set_frames d_feat d_frames ft_anim]. rewrite Hanim.
+      cbn [negb andb len length Z.of_nat]. change (Z.pos (Pos.of_succ_nat 0) =? 0) with false. cbn [andb bind].
+      exact Hk.
+    + cbn. repeat split.
+  - eexists. split.
+    + intros r Hk. unfold img_chunks. cbn [app].
+      rewrite ext_loop_step by lia.
+      rewrite ext_dispatch_image by auto.
+      cbn [add_chunk d_feat d_frames]. rewrite Hanim, Hfr. cbn [negb andb len length Z.of_nat Z.eqb].
+      assert (E : enc (detect_type b) b ++ tail = img_chunks None b ++ tail) by reflexivity.
+      rewrite E. rewrite (parse_single_ext_written _ None b w h isl abit tail) by (auto; cbn [olen]; lia).
+      cbn [bind]. apply (ext_loop_more_fuel f); [exact Hk|lia].
+    + cbn. repeat split.
+Qed.
+
+Theorem still_ext_roundtrip m bs :
+  mok m -> is_animated m = false -> needs_vp8x repaired m = true -> assemble repaired m = Ok bs ->
+  bytes_ok bs /\ rd32 (firstn 4 (skipn 4 bs)) + 8 = len bs /\
+  exists d, parse true bs = Ok d /\ view_of_demux d = Some (view_of_mux m).
+Proof.
+  intros Hm Hanim Hx Hasm. unfold assemble in Hasm.
+  destruct (validate repaired m) as [[]|e|] eqn:Hval; cbn [bind] in Hasm; try discriminate.
+  rewrite Hx in Hasm.
+  destruct (validate_facts m Hval) as (Hne & Hcw & Hch & Harea & Hone & Hoff).
+  destruct (Hone Hanim) as [f Hf].
+  pose proof (canvas_size_pos m) as [Hcw1 Hch1].
+  pose proof (mk_frames m Hm) as Hfr. rewrite Hf in Hfr, Hoff.
+  inversion Hfr as [|? ? (Hb & Hl & Hv & Hdur) _]; subst.
+  inversion Hoff as [|? ? (_ & _ & Hz) _]; subst. destruct (Hz Hanim) as [Hox Hoy].
+  assert (Hd0 : o_dur (f_opts f) = 0).
+  { unfold is_animated in Hanim. rewrite Hf in Hanim. apply orb_false_iff in Hanim. destruct Hanim as [_ Ha].
+    cbn [existsb] in Ha. rewrite orb_false_r in Ha. lia. }
+  destruct f as [data fo]. cbn [f_data f_opts] in *.
+  destruct (valid_frame_facts data Hb Hv) as (a & b & w & h & isl & abit & [Hparts Hsplit Hbf Hbb Hab Hlen _]).
+  destruct (len_img_chunks a b ltac:(lia) Hab) as (Hlen_img & _ & _).
+  unfold assemble_extended in Hasm. rewrite Hanim, Hf in Hasm.
+  destruct (canvas_size m) as [cw ch] eqn:Ecs. cbn [fst snd] in *.
+  cbn [fold_left flat_map] in Hasm.
+  assert (Hfrs : frame_riff_size repaired false (mkmf data fo) = len (img_chunks a b)).
+  { unfold frame_riff_size. cbn [fx_alpha repaired f_data]. rewrite Hsplit. symmetry. exact Hlen_img. }
+  assert (Hwfr : write_frame repaired false (mkmf data fo) = img_chunks a b).
+  { unfold write_frame. cbn [fx_alpha repaired f_data]. rewrite Hsplit. reflexivity. }
+  rewrite Hfrs, Hwfr, app_nil_r in Hasm.
+  rewrite <- (ometa_size_correct FCC_ICCP _ (mk_icc m Hm)) in Hasm.
+  rewrite <- (ometa_size_correct FCC_EXIF _ (mk_exif m Hm)) in Hasm.
+  rewrite <- (ometa_size_correct FCC_XMP _ (mk_xmp m Hm)) in Hasm.
+  match type of Hasm with (if ?n >? _ then _ else _) = _ => set (riff := n) in * end.
+  destruct (Z.gtb_spec riff 4294967295) as [|Hriff]; [discriminate|].
+  apply Ok_inj in Hasm. subst bs.
+  change ([] ++ img_chunks a b ++ ometa_write FCC_EXIF (m_exif m) ++ ometa_write FCC_XMP (m_xmp m))
+    with (img_chunks a b ++ ometa_write FCC_EXIF (m_exif m) ++ ometa_write FCC_XMP (m_xmp m)).
+  set (rest := ometa_write FCC_ICCP (m_icc m) ++ img_chunks a b ++
+               ometa_write FCC_EXIF (m_exif m) ++ ometa_write FCC_XMP (m_xmp m)).
+  set (body := enc FCC_VP8X (vp8x_payload (vp8x_flags m) cw ch) ++ rest).
+  assert (Hfile : le32 FCC_RIFF ++ le32 riff ++ le32 FCC_WEBP ++
+                  le32 FCC_VP8X ++ le32 VP8XChunkSize ++ [vp8x_flags m; 0; 0; 0] ++ le24 (cw - 1) ++ le24 (ch - 1) ++ rest
+                = le32 FCC_RIFF ++ le32 riff ++ le32 FCC_WEBP ++ body).
+  { unfold body. rewrite <- vp8x_written. rewrite <- !app_assoc. reflexivity. }
+  rewrite Hfile. clear Hfile.
+  assert (Hriffeq : riff = 4 + len body).
+  { unfold riff, body, rest. rewrite !len_app. unfold ChunkHeaderSize, VP8XChunkSize.
+    change (len (enc FCC_VP8X (vp8x_payload (vp8x_flags m) cw ch))) with 18. lia. }
+  assert (Hrestb : bytes_ok rest).
+  { unfold rest. apply bytes_ok_app; split; [apply bytes_ok_ometa, (mk_icc m Hm)|].
+    apply bytes_ok_app; split; [apply bytes_ok_img; auto|].
+    apply bytes_ok_app; split; apply bytes_ok_ometa; [apply (mk_exif m Hm)|apply (mk_xmp m Hm)]. }
+  assert (Hflags : 0 <= vp8x_flags m < 256).
+  { unfold vp8x_flags. destruct (is_animated m), (is_some (m_icc m)), (is_some (m_exif m)), (is_some (m_xmp m)), (has_alpha m); lia. }
+  assert (Hbodyb : bytes_ok body).
+  { unfold body. apply bytes_ok_app. split; [|exact Hrestb]. apply bytes_ok_enc.
+    unfold vp8x_payload, le24, bytes_ok. cbn [app].
+    repeat (apply Forall_cons; [unfold is_byte; lia|]). apply Forall_nil. }
+  assert (Hb8 : 8 <= len body).
+  { unfold body. rewrite len_app. change (len (enc FCC_VP8X (vp8x_payload (vp8x_flags m) cw ch))) with 18.
+    pose proof (len_nonneg rest). lia. }
+  split; [|split].
+  { apply bytes_ok_app; split; [apply le32_bytes|]. apply bytes_ok_app; split; [apply le32_bytes|].
+    apply bytes_ok_app; split; [apply le32_bytes|exact Hbodyb]. }
+  { change (le32 FCC_RIFF) with [82; 73; 70; 70]. cbn [app skipn].
+    rewrite !len_cons, !len_app, !len_le32.
+    replace (firstn 4 (le32 riff ++ le32 FCC_WEBP ++ body)) with (le32 riff) by reflexivity.
+    rewrite <- (app_nil_r (le32 riff)), rd32_le32 by (pose proof (len_nonneg body); lia). lia. }
+  rewrite parse_riff_written by (auto; lia).
+  assert (Hft : u32at body 0 = Ok FCC_VP8X).
+  { unfold body, enc, write_data_chunk. rewrite <- !app_assoc. apply u32at_le32_head. vm_compute. split; congruence. }
+  rewrite Hft. cbn [bind]. rewrite Z.eqb_refl.
+  unfold body. rewrite parse_extended_written by (unfold MaxCanvasSize in *; lia).
+  destruct (flags_derivation m) as (Fa & _). cbv zeta in Fa.
+  set (d0 := d0_of (vp8x_flags m) cw ch).
+  assert (Hd0anim : ft_anim (d_feat d0) = false) by (unfold d0, d0_of; cbn [d_feat ft_anim]; rewrite Fa; exact Hanim).
+  (* the chain: [ICCP] image [EXIF] [XMP] *)
+  set (d1 := match m_icc m with
+             | Some p => set_icc (add_chunk d0 (mkchunk FCC_ICCP (len p) p)) p
+             | None => d0 end).
+  assert (Hd1 : d_feat d1 = d_feat d0 /\ d_frames d1 = [] /\ d_bg d1 = 0 /\ d_loop d1 = 0 /\
+                d_icc d1 = m_icc m /\ d_exif d1 = None /\ d_xmp d1 = None).
+  { unfold d1. destruct (m_icc m); cbn; repeat split. }
+  destruct Hd1 as (D1 & D2 & D3 & D4 & D5 & D6 & D7).
+  destruct (ext_still_image d1 a b w h isl abit
+              (ometa_write FCC_EXIF (m_exif m) ++ ometa_write FCC_XMP (m_xmp m)) 3 Hbf ltac:(lia) Hab)
+    as (d2 & K2 & G1 & G2 & G3 & G4 & G5 & G6 & G7).
+  { rewrite D1. exact Hd0anim. }
+  { exact D2. }
+  destruct (ext_end_meta (m_exif m) (m_xmp m) d2 (mk_exif m Hm) (mk_xmp m Hm)) as (d3 & E3 & H1 & H2 & H3 & H4 & H5 & H6 & H7).
+  assert (Erun : ext_loop 6 rest d0 = Ok d3).
+  { unfold rest. destruct (m_icc m) as [pi|] eqn:Ei; cbn [ometa_write].
+    - pose proof (mk_icc m Hm) as Hi. rewrite Ei in Hi. destruct Hi as [_ Hi].
+      fold (enc FCC_ICCP pi).
+      rewrite ext_loop_step; [|unfold FCC_ICCP; lia|unfold maxMetadataSize in Hi; lia].
+      unfold ext_dispatch at 1. cbn [c_id c_data]. change (FCC_ICCP =? FCC_ICCP) with true. cbv iota.
+      replace (len pi >? maxMetadataSize) with false by lia. cbn [bind].
+      apply K2. exact E3.
+    - cbn [app]. apply (ext_loop_more_fuel 5); [|lia]. apply K2. exact E3. }
+  rewrite (ext_loop_enough _ _ _ _ Hrestb Erun). cbn [bind].
+  rewrite H2, G7. cbn [len length Z.of_nat]. change (Z.pos (Pos.of_succ_nat 0) =? 0) with false. cbv iota.
+  exists d3. split; [reflexivity|].
+  unfold view_of_demux, view_of_mux. rewrite Hanim, Ecs, Hf, H2, G7.
+  cbn [map vframe_of_fi fi_data fi_alpha fi_ox fi_oy fi_dur fi_blend fi_dispose all_some].
+  unfold vframe_of. cbn [f_data f_opts]. rewrite Hparts, Hox, Hoy, Hd0.
+  rewrite H1, G1, D1, H3, G2, D3, H4, G3, D4, H5, G4, D5, H6, G5, D6, H7, G6, D7.
+  unfold d0, d0_of. cbn [d_feat ft_w ft_h ft_anim]. rewrite Fa, Hanim.
+  destruct (m_exif m), (m_xmp m); reflexivity.
+Qed.
+
+(** ---- histories: every state reached by calls satisfying the hypotheses is [mok] ---- *)
+Lemma bytes_okb_ok d : bytes_okb d = true -> bytes_ok d.
+Proof.
+  unfold bytes_okb, bytes_ok. rewrite forallb_forall, Forall_forall. intros H x Hx.
+  specialize (H x Hx). unfold is_byte. lia.
+Qed.
+
+Lemma oblob_ok_meta o : oblob_okb o = true -> ometa_ok o.
+Proof.
+  destruct o as [p|]; cbn; [|auto]. intros H. apply andb_true_iff in H. destruct H as [H1 H2].
+  split; [apply bytes_okb_ok; exact H1|unfold maxMetadataSize; lia].
+Qed.
+
+Lemma clamp_duration_range d : 0 <= clamp_duration d <= maxDuration.
+Proof. unfold clamp_duration, maxDuration. destruct (d <? 0) eqn:E1; [lia|]. destruct (d >? 16777215) eqn:E2; lia. Qed.
+
+Lemma upd_nth_ok fs : forall i g, Forall mframe_ok fs ->
+  (forall f, mframe_ok f -> mframe_ok (mkmf (f_data f) (g (f_opts f)))) -> Forall mframe_ok (upd_nth fs i g).
+Proof.
+  induction fs as [|f fs IH]; intros i g H Hg; cbn [upd_nth]; [constructor|].
+  inversion H; subst. destruct i; constructor; auto.
+Qed.
+
+Lemma upd_nth_length fs : forall i g, length (upd_nth fs i g) = length fs.
+Proof. induction fs as [|f fs IH]; intros [|i] g; cbn; auto. Qed.
+
+Lemma step_mok m o : op_ok o -> mok m -> mok (fst (step m o)).
+Proof.
+  intros Ho [Hf Hi He Hx Hbg Hlp Hn]. unfold op_ok in Ho. destruct o; cbn [step op_okb] in *.
+  - (* AddFrame *)
+    destruct (len data =? 0); [constructor; auto|].
+    destruct (Z.geb_spec (len (m_frames m)) MaxFrames); [constructor; auto|]. cbn [fst].
+    rewrite !andb_true_iff in Ho. destruct Ho as [[Hb Hv] _].
+    unfold blob_okb in Hb. apply andb_true_iff in Hb. destruct Hb as [Hb1 Hb2].
+    constructor; cbn [MuxModel.set_frames m_frames m_icc m_exif m_xmp m_bg m_loop]; auto.
+    + apply Forall_app. split; [exact Hf|]. constructor; [|constructor].
+      unfold mframe_ok. cbn [f_data f_opts o_dur].
+      split; [apply bytes_okb_ok; exact Hb1|]. split; [lia|]. split; [exact Hv|apply clamp_duration_range].
+    + rewrite len_app. unfold len at 2. cbn [length]. lia.
+  - (* SetFrameDisposeMode *)
+    cbn [fst]. unfold upd_frame. destruct ((0 <=? i) && (i <? len (m_frames m))); [|constructor; auto].
+    constructor; cbn [MuxModel.set_frames m_frames m_icc m_exif m_xmp m_bg m_loop]; auto.
+    + apply upd_nth_ok; auto.
+    + unfold len. rewrite upd_nth_length. exact Hn.
+  - (* SetFrameDuration *)
+    cbn [fst]. unfold upd_frame. destruct ((0 <=? i) && (i <? len (m_frames m))); [|constructor; auto].
+    constructor; cbn [MuxModel.set_frames m_frames m_icc m_exif m_xmp m_bg m_loop]; auto.
+    + apply upd_nth_ok; auto. intros f (A & B & C & D). unfold mframe_ok. cbn [f_data f_opts o_dur].
+      repeat split; auto; apply clamp_duration_range.
+    + unfold len. rewrite upd_nth_length. exact Hn.
+  - cbn [fst]. constructor; cbn; auto using oblob_ok_meta.
+  - cbn [fst]. constructor; cbn; auto using oblob_ok_meta.
+  - cbn [fst]. constructor; cbn; auto using oblob_ok_meta.
+  - (* AddChunk *)
+    rewrite !andb_true_iff in Ho. destruct Ho as [_ Ho]. apply oblob_ok_meta in Ho.
+    destruct (olen d >? maxMetadataSize); [constructor; auto|].
+    destruct (id =? FCC_ICCP); [constructor; cbn; auto|].
+    destruct (id =? FCC_EXIF); [constructor; cbn; auto|].
+    destruct (id =? FCC_XMP); constructor; cbn; auto.
+  - (* SetLoopCount *)
+    cbn [fst]. constructor; cbn [m_frames m_icc m_exif m_xmp m_bg m_loop]; auto.
+    unfold maxLoopCount. destruct (n <? 0) eqn:E1; [lia|]. destruct (n >? 65535) eqn:E2; lia.
+  - cbn [fst]. constructor; cbn [m_frames m_icc m_exif m_xmp m_bg m_loop]; auto. lia.
+  - cbn [fst]. constructor; cbn [m_frames m_icc m_exif m_xmp m_bg m_loop]; auto.
+Qed.
+
+Lemma run_mok ops : Forall op_ok ops -> mok (run ops).
+Proof.
+  unfold run. assert (H0 : mok minit).
+  { constructor; cbn; auto; try lia. unfold len, MaxFrames. cbn. lia. }
+  revert H0. generalize minit. induction ops as [|o ops IH]; intros m Hm H; cbn [fold_left]; [exact Hm|].
+  inversion H; subst. apply IH; [apply step_mok; auto|auto].
+Qed.
+
+Lemma assemble_no_panic m : assemble repaired m <> Panic.
+Proof.
+  unfold assemble. destruct (validate repaired m) as [[]|e|] eqn:Hv; cbn [bind]; try discriminate.
+  - destruct (needs_vp8x repaired m).
+    + unfold assemble_extended. destruct (canvas_size m). destruct (_ >? _); discriminate.
+    + unfold assemble_simple. destruct (validate_facts m Hv) as (Hne & _).
+      destruct (m_frames m); [contradiction|discriminate].
+  - unfold validate in Hv. repeat match type of Hv with
+      | (if ?c then _ else _) = _ => destruct c
+      | (let '(_, _) := ?x in _) = _ => destruct x end; discriminate.
+Qed.
+
+(** C14 for the extended layouts of the current code: for EVERY history of muxer calls
+    satisfying the hypotheses, if Assemble succeeds and writes a VP8X file (a still
+    picture with metadata and/or alpha, or an animation of any number of frames,
+    with or without ALPH sub-chunks), the bytes are in range, the RIFF size field
+    covers the file exactly, and the demuxer returns exactly the view of what was
+    put in.  Assemble never panics. *)
+Theorem extended_roundtrip ops :
+  Forall op_ok ops ->
+  let m := run ops in
+  match assemble repaired m with
+  | Err _ => True
+  | Panic => False
+  | Ok bs =>
+    needs_vp8x repaired m = true ->
+    bytes_ok bs /\ rd32 (firstn 4 (skipn 4 bs)) + 8 = len bs /\
+    match parse true bs with
+    | Ok d => view_of_demux d = Some (view_of_mux m)
+    | _ => False
+    end
+  end.
+Proof.
+  intros Hops m. pose proof (run_mok ops Hops) as Hm. fold m in Hm.
+  destruct (assemble repaired m) as [bs|e|] eqn:Ha; [|exact I|exact (assemble_no_panic m Ha)].
+  intros Hx. destruct (is_animated m) eqn:Han.
+  - destruct (animated_roundtrip m bs Hm Han Ha) as (H1 & H2 & d & H3 & H4).
+    split; [exact H1|]. split; [exact H2|]. rewrite H3. exact H4.
+  - destruct (still_ext_roundtrip m bs Hm Han Hx Ha) as (H1 & H2 & d & H3 & H4).
+    split; [exact H1|]. split; [exact H2|]. rewrite H3. exact H4.
 Qed.
